@@ -48,8 +48,10 @@ def candidates(T, v):
     # leaves
     if v[0] == 'i' and v[1] not in (0, 1):
         yield T, ('i', 1)
-    if v[0] in ('o', 'any') and len(v[1]) > 1:
+    if v[0] == 'o' and len(v[1]) > 1:
         yield T, (v[0], v[1][:len(v[1]) // 2])
+    if v[0] == 'any' and v[1] != b'\x05\x00':
+        yield T, ('any', b'\x05\x00')          # stays a complete TLV
     if v[0] == 'chars' and len(v[1]) > 1:
         yield T, ('chars', v[1][:len(v[1]) // 2])
     if v[0] == 'bits' and len(v[1]) > 1:
